@@ -42,6 +42,13 @@ def make_obs(ctx):
                       remove_bodies=P(['ymd'])))
         obs.append(Ob('dround-mon:%d-%d' % (lo, hi), H, 'h_dround_mon', d, units=UNITS, group='dround-mon', bounds=b,
                       remove_bodies=P(['ymd'])))
+        obs.append(Ob('dround-week:%d-%d' % (lo, hi), H, 'h_dround_week', d, units=UNITS, group='dround-week',
+                      bounds=dict(b, target='ISO week 1..52 (53 is outside: not every year has it)'),
+                      remove_bodies=P(['ywd'])))
+        obs.append(Ob('dround-bday:%d-%d' % (lo, hi), H, 'h_dround_bday', d, units=UNITS, group='dround-bday',
+                      bounds=dict(b, dates='every business-day-of-month date of %d..%d' % (lo, hi),
+                                  target='business day 1..20 (higher ones are outside: not every month has them)'),
+                      remove_bodies=P(['bizda'])))
         # weekday rounding goes through day numbers: dates from 4094 on fall under the day-number cut-off
         # (C01's listed finding daisy_tail) and are outside here
         if lo <= 4093:
@@ -62,6 +69,6 @@ def run(tier, seed):
         level_note=('bounded model checking of the static rounding functions of src/dround.c; the reference is the '
                     'relation "field equals target, finer fields kept, on the requested side, no nearer candidate"'),
         assumptions=['reference calendar h/ref.h', 'targets given as parsed durations (dt_io_strpdtrnd text parsing not covered)',
-                     'business-day and ISO-week targets not yet covered',
+                     'business-day targets above 20 and ISO week 53 not covered (they do not exist in every month/year and the statement names no replacement)',
                      'weekday rounding of dates from 4094 on is outside (day-number cut-off, see C01 daisy_tail)'],
         stubs=[])
